@@ -1,6 +1,7 @@
 ---------------------------- MODULE ExcTableTrace ----------------------------
 (* judge: record = [tab, entries (what the implementation parsed), bc (Bytecode.exception_entries or <<>>),   *)
-(* rows (format_exception_table rows <<start, end-2, target, depth, lasti>> or <<>>), has]; one entry per step *)
+(* rows (format_exception_table rows <<start, end-2, target, depth, lasti>> or <<>>), lrows (the rows of the   *)
+(* 'ExceptionTable:' section of the file's listing that belongs to this code object), has]; one entry per step *)
 EXTENDS ExcTable, TLC, Json, IOUtils, TLCExt
 Traces == ndJsonDeserialize(IOEnv.TRACE_FILE)
 VARIABLES tid, p, k, bad, st
@@ -19,7 +20,9 @@ TStep == /\ tid <= Len(Traces) /\ st = "run" /\ More /\ Len(bad) < 4
                 row == <<x.e[1], x.e[2] - 2, x.e[3], x.e[4], x.e[5]>>
                 c3 == IF Has("rows") /\ (k > Len(R.rows) \/ R.rows[k] # row)
                       THEN <<V("C17.exception_row", row, IF k <= Len(R.rows) THEN R.rows[k] ELSE "missing")>> ELSE <<>>
-            IN bad' = bad \o c1 \o c2 \o c3 /\ p' = x.next
+                c4 == IF Has("lrows") /\ (k > Len(R.lrows) \/ R.lrows[k] # row)
+                      THEN <<V("C17.listing_exception_row", row, IF k <= Len(R.lrows) THEN R.lrows[k] ELSE "missing from the listing")>> ELSE <<>>
+            IN bad' = bad \o c1 \o c2 \o c3 \o c4 /\ p' = x.next
          /\ k' = k + 1 /\ UNCHANGED <<tid, st>>
 TNext == /\ tid <= Len(Traces) /\ st = "run" /\ (~More \/ Len(bad) >= 4)
          /\ LET e1 == IF Len(R.entries) # k - 1 THEN <<V("C17.exception_count", k - 1, Len(R.entries))>> ELSE <<>>
